@@ -1,6 +1,6 @@
 PROP = dict(
     gen=["gsm7"],
-    proof_files=["Properties/C08.v", "Proofs/Gsm7Code.v", "Proofs/Gsm7Proofs.v", "Proofs/Gsm7Bits.v"],
+    proof_files=["Properties/C08.v", "Proofs/Gsm7Code.v", "Proofs/Gsm7Proofs.v", "Proofs/Gsm7Bits.v", "Proofs/Gsm7Xf.v"],
     model_files=["Model/Gsm7.v"],
     trusted=["Gen/Gsm7Tables.v is the complete tabulation of the running code: every one of the 1,112,064 Unicode scalar values as a "
              "one-character text through gsm7bit.Packed.NewEncoder().Bytes and coding.GSM7BitCoding.Validate, every septet and ESC+septet "
